@@ -16,6 +16,74 @@ pub mod poolkit;
 pub mod rng;
 pub use rng::Rng;
 
+/// Adversarial interning of block hashes: small ids -> 32-byte strings.
+///
+/// Real block hashes are uniformly distributed, the hashes a Byzantine validator puts into a vote are not: it may
+/// name any 32 bytes, in particular ones that agree with an honest block's hash everywhere but in one byte.  Every
+/// container of the code that is keyed by block hash (sorted maps, binary searches, per-validator vote maps) must
+/// still tell them apart.  Ids are therefore interned so that the ids of one *group* (`(id - 1) / GROUP`, i.e.
+/// 1..=4, 5..=8, ...) share all 32 bytes except ONE, whose position depends on the group and cycles through the four
+/// 64-bit words and through early / late bytes of a word (`POS`): the blocks of group 0 differ only in byte 31, those
+/// of group 1 only in byte 8, group 2 byte 24, group 3 byte 15, ...  All other bytes are a fixed pseudo-random
+/// filler derived from the group number, except bytes 0..4 which hold the group number + 1 big-endian, so that
+///   * the byte order (`Ord`) of the hashes is the order of the ids (the code iterates some sets in hash order, the
+///     Lean model in id order),
+///   * the interning is injective and can be inverted without a table (`id_of`).
+/// Generators that want competing blocks of one slot to collide allocate their ids inside one group.
+pub mod advhash {
+    pub const GROUP: u64 = 4;
+    /// position of the one byte in which the members of group g differ (g mod 16)
+    pub const POS: [usize; 16] = [31, 8, 24, 15, 16, 7, 23, 4, 28, 12, 20, 27, 5, 11, 19, 30];
+
+    fn mix(mut z: u64) -> u64 {
+        z = z.wrapping_add(0x9E3779B97F4A7C15);
+        z = (z ^ (z >> 30)).wrapping_mul(0xBF58476D1CE4E5B9);
+        z = (z ^ (z >> 27)).wrapping_mul(0x94D049BB133111EB);
+        z ^ (z >> 31)
+    }
+
+    pub fn group_of(id: u64) -> u64 { (id - 1) / GROUP }
+    /// the byte position in which `id` differs from the other members of its group
+    pub fn pos_of(id: u64) -> usize { POS[(group_of(id) % 16) as usize] }
+
+    /// the 32 bytes of block id `id` (`id` >= 1; id 0 is the genesis hash, all zero, by convention of the callers)
+    pub fn bytes(id: u64) -> [u8; 32] {
+        assert!(id >= 1 && group_of(id) < u32::MAX as u64, "block id out of range");
+        let g = group_of(id);
+        let j = ((id - 1) % GROUP) as u8;
+        let mut b = [0u8; 32];
+        for w in 0..4 {
+            b[8 * w..8 * w + 8].copy_from_slice(&mix(g.wrapping_mul(4).wrapping_add(w as u64) ^ 0xB10C_4A54).to_be_bytes());
+        }
+        b[..4].copy_from_slice(&((g + 1) as u32).to_be_bytes());
+        let p = POS[(g % 16) as usize];
+        b[p] = (b[p] & !(GROUP as u8 - 1)) | j;
+        b
+    }
+
+    /// inverse of `bytes` (all-zero = 0); `None` for a string that is no interned id
+    pub fn id_of(b: &[u8]) -> Option<u64> {
+        if b.len() != 32 { return None; }
+        if b.iter().all(|x| *x == 0) { return Some(0); }
+        let g1 = u32::from_be_bytes(b[..4].try_into().ok()?) as u64;
+        if g1 == 0 { return None; }
+        let g = g1 - 1;
+        let p = POS[(g % 16) as usize];
+        let id = g * GROUP + (b[p] & (GROUP as u8 - 1)) as u64 + 1;
+        if bytes(id)[..] == *b { Some(id) } else { None }
+    }
+
+    pub fn block_hash(id: u64) -> alpenglow::crypto::merkle::BlockHash {
+        if id == 0 { return alpenglow::crypto::merkle::GENESIS_BLOCK_HASH; }
+        let h: alpenglow::crypto::Hash = wincode::deserialize(&bytes(id)).expect("32 bytes are a Hash");
+        h.into()
+    }
+
+    pub fn block_id(h: &alpenglow::crypto::merkle::BlockHash) -> Option<u64> {
+        id_of(&wincode::serialize(h).ok()?)
+    }
+}
+
 #[derive(Clone, Debug)]
 pub struct Args {
     pub seed: u64,
